@@ -13,14 +13,14 @@ def _stages(tier):
     # 16 workers x 32 threads: at most 5 processes run side by side, each mostly in its single-threaded run-alone phase.
     # Measured (16 shared cores): tsan 15 cases x 2 reps = 80 s; opt 100 cases x 8 reps = 140 s.
     if tier == 'thorough':
-        tsan = [dict(name='tsan-%d' % i, harness='h_mt', flavour='tsan', cases=220, single_process=True, idle_timeout=900,
+        tsan = [dict(name='tsan-%d' % i, harness='h_mt', flavour='tsan', cases=220, single_process=True, idle_timeout=200,
                      args={'base': 1000 * i, 'reps': 4}) for i in range(4)]
-        opt = [dict(name='opt-%d' % i, harness='h_mt', flavour='opt', cases=1000, single_process=True, idle_timeout=900,
+        opt = [dict(name='opt-%d' % i, harness='h_mt', flavour='opt', cases=1000, single_process=True, idle_timeout=200,
                     args={'base': 100000 + 10000 * i, 'reps': 12}) for i in range(2)]
         return tsan + opt
-    tsan = [dict(name='tsan-%d' % i, harness='h_mt', flavour='tsan', cases=20, single_process=True, idle_timeout=900,
+    tsan = [dict(name='tsan-%d' % i, harness='h_mt', flavour='tsan', cases=20, single_process=True, idle_timeout=200,
                  args={'base': 1000 * i, 'reps': 3}) for i in range(3)]
-    opt = [dict(name='opt-%d' % i, harness='h_mt', flavour='opt', cases=60, single_process=True, idle_timeout=900,
+    opt = [dict(name='opt-%d' % i, harness='h_mt', flavour='opt', cases=60, single_process=True, idle_timeout=200,
                 args={'base': 100000 + 10000 * i, 'reps': 8}) for i in range(2)]
     return tsan + opt
 
